@@ -584,3 +584,112 @@ Print Assumptions c02_par_lat_agg_model_unique. Print Assumptions c02_par_lat_ag
 Print Assumptions c02_par_lat_agg_reduction. Print Assumptions c02_par_lat_agg_conservative.
 Print Assumptions c02_par_lat_agg_at_every_iteration. Print Assumptions c02_par_lat_agg_no_deadlock.
 Print Assumptions c02_par_lat_agg_example_hypotheses. Print Assumptions c02_par_lat_agg_example_run.
+
+(* ================= the parallel engine with PER-INDEX, SHARDED, POOL-DEPENDENT state =================
+   Engine/ParIndexedModel.v: every index a value of the C19 / C20 models (CRelFullIndex, CRelIndex, CRelNoIndex = a vector of as many shards
+   as the pool current at creation has threads, insert into shard thread_index mod len), rows a boxcar push; a schedule interleaves the
+   workers' atomic steps (frozen reads + insert_if_not_present; push; one index_insert per other index; __changed.store) in any way.
+   Every such run refines Engine/ParStep.v, so the least-model theorem transfers; rule-body READS stay at the row level (work = any
+   distribution of eval_variant over the lists every index is proved to denote). *)
+From Coq Require Import List ZArith Bool Arith Permutation.
+From AV Require Import Index.IndexModel.
+From AV Require Import Engine.Core Engine.Sem Engine.Eval Engine.Validate Engine.Naive Engine.ParStep.
+From AV Require Import Engine.ParIndexedModel Engine.ParIndexedValue Engine.ParIndexedIter Engine.ParIndexedRefine Engine.ParIndexedExample.
+Import ListNotations.
+Local Open Scope nat_scope.
+
+(* C02 + C19 + C20 in one model: every run of the per-index parallel engine that did not fail — any pool size, any thread
+   index below it for every atomic step, any hash, any distribution of the derived facts over workers and any interleaving
+   of the workers' atomic steps (frozen reads + insert_if_not_present; push; one index_insert per other index;
+   __changed.store) in every iteration of every SCC, any order of the inserts of update_indices, any field values found in
+   the program value — computes the least model, keeps the input rows in place, adds every new fact exactly once, and
+   leaves every stored index field with the run pool's shape, denoting the stored tuples of its relation *)
+Theorem par_indexed_run_least_model :
+  forall (sh : forall A : Type, list A -> list A), (forall A (l : list A), Permutation (sh A l) l) ->
+  forall (hash : Z -> nat) (enc : list Z -> Z), (forall a b, enc a = enc b -> a = b) ->
+  forall nsh, nsh <> 0 ->
+  forall (nomod : bool) (pool : nat) (I : interp) (swap : list tuple -> list tuple -> bool)
+         arities P pl F0 (fields : list (xdecl * xval)) st,
+    arities_functional arities -> wf_facts arities F0 = true -> no_agg P = true -> validate arities P pl = true ->
+    fu_decls (map fst fields) ->
+    pix_run_plan sh hash enc nsh nomod I swap pool pl (xinit F0 fields) st ->
+    least_model I P F0 (xrows st)
+    /\ (exists added, xrows st = F0 ++ added /\ NoDup added /\ (forall f, In f added -> ~ In f F0))
+    /\ fields_good hash enc nsh pool (xstored st) (xfields st).
+Proof. exact par_indexed_run_least_model_holds. Qed.
+
+(* the refinement behind it: a run of the per-index engine IS a run of ParStep's engine on the row-level state *)
+Theorem c02_par_indexed_run_refines_parstep :
+  forall (sh : forall A : Type, list A -> list A), (forall A (l : list A), Permutation (sh A l) l) ->
+  forall (hash : Z -> nat) (enc : list Z -> Z), (forall a b, enc a = enc b -> a = b) ->
+  forall nsh, nsh <> 0 ->
+  forall (nomod : bool) (pool : nat) (I : interp) (swap : list tuple -> list tuple -> bool) pl F0 fields st,
+    fu_decls (map fst fields) ->
+    pix_run_plan sh hash enc nsh nomod I swap pool pl (xinit F0 fields) st ->
+    par_run_plan I swap pl (init_state F0) (abs_x st).
+Proof. exact pix_run_plan_par. Qed.
+
+(* one iteration (freeze; the workers' steps in ANY interleaving; unfreeze; merge_delta_to_total_new_to_delta per index,
+   incl. the shard-wise zip of CRelNoIndex), under the pool hypothesis [sgood] on the store at the head of the loop:
+   new facts, rows and __changed are exactly what ParStep.run_sched computes for the SAME work under the schedule
+   [coarsen] extracts from the fine one, and afterwards all index variables are again pool-shaped, unfrozen and in
+   lock-step: total denotes T ++ D, delta denotes N, new is empty — in EVERY index of every dynamic relation *)
+Theorem c02_par_indexed_iteration_refines_parstep :
+  forall (sh : forall A : Type, list A -> list A), (forall A (l : list A), Permutation (sh A l) l) ->
+  forall (hash : Z -> nat) (enc : list Z -> Z), (forall a b, enc a = enc b -> a = b) ->
+  forall nsh, nsh <> 0 ->
+  forall (nomod : bool) (pool : nat) (Pd : xdecl -> Prop) (Pb : xdecl -> xval -> Prop) (T D : list fact) (s : store),
+    sgood hash enc nsh pool Pd Pb T D [] s -> fu_sk (map skel s) ->
+  forall R work sched N R' ch s',
+    tids_ok pool sched ->
+    iteration_fn sh hash enc nomod R s work sched = Ok (N, R', ch, s') ->
+    let pst := run_sched T D (par_init R work) (coarsen hash enc nomod (iinit R (map freeze_entry s) work) sched) in
+    finished pst = true /\ N = pN pst /\ R' = pR pst /\ ch = pchanged pst /\
+    sgoods hash enc nsh pool Pd Pb (T ++ D) N [] s' /\ map skel s' = map skel s /\
+    (forall f, In f N -> find_pos (is_full_of (fst f)) s <> None).
+Proof. exact iteration_refines. Qed.
+
+(* lock-step read off [sgoods]: the three variables of EVERY index of a relation denote the relation's tuples in the SAME
+   three lists (full index: as a set of keys; hash / no-index: the multiset union over the shards) *)
+Theorem c02_par_indexed_lockstep :
+  forall (hash : Z -> nat) (enc : list Z -> Z) nsh pool Pd Pb (T D N : list fact) (s : store),
+    sgoods hash enc nsh pool Pd Pb T D N s ->
+    forall e t dl n, In e s -> s_v e = SDyn t dl n ->
+      xden hash enc (s_d e) t (db_of T (x_rel (s_d e))) /\ xden hash enc (s_d e) dl (db_of D (x_rel (s_d e)))
+      /\ xden hash enc (s_d e) n (db_of N (x_rel (s_d e))).
+Proof. exact sgoods_lockstep. Qed.
+
+(* no schedule fails: under the pool hypothesis every interleaving with thread indices below the pool size runs without a
+   panic (no frozen index, no out-of-range shard — also WITHOUT the modulo), and when it lets every worker finish the
+   merge succeeds too *)
+Theorem c02_par_indexed_iteration_no_panic :
+  forall (sh : forall A : Type, list A -> list A), (forall A (l : list A), Permutation (sh A l) l) ->
+  forall (hash : Z -> nat) (enc : list Z -> Z), (forall a b, enc a = enc b -> a = b) ->
+  forall nsh, nsh <> 0 ->
+  forall (nomod : bool) (pool : nat) (Pd : xdecl -> Prop) (Pb : xdecl -> xval -> Prop) (T D : list fact) (s : store),
+    sgood hash enc nsh pool Pd Pb T D [] s -> fu_sk (map skel s) ->
+  forall R work sched,
+    tids_ok pool sched ->
+    (forall f, In f (concat work) -> find_pos (is_full_of (fst f)) s <> None) ->
+    exists fin, irun hash enc nomod (iinit R (map freeze_entry s) work) sched = Ok fin /\
+      (ifinished fin = true ->
+       exists s', iteration_fn sh hash enc nomod R s work sched = Ok (iN fin, iR fin, ichanged fin, s')).
+Proof. exact iteration_total. Qed.
+
+(* C20 at engine level: update_indices_par establishes the pool hypothesis whatever the program value held before
+   (fields created in any pool, any content, frozen or not): afterwards every field has the RUN pool's shape and denotes
+   the rows of its relation *)
+Example c02_par_indexed_iteration_example :
+  exists s', iteration_fn sh_id ex_hash ConcreteEval.enc_list false ex_rows (ex_store 2 2 [(0, [1; 2]%Z)]) ex_work ex_sched
+             = Ok ([(0, [3; 4]%Z); (0, [5; 6]%Z)], [(0, [1; 2]%Z); (0, [3; 4]%Z); (0, [5; 6]%Z)], true, s')
+    /\ sdump s' = [ ([([1; 2]%Z, [])],      [([3; 4]%Z, []); ([5; 6]%Z, [])],         []);
+                    ([([1]%Z, [2]%Z)],      [([3]%Z, [4]%Z); ([5]%Z, [6]%Z)],         []);
+                    ([([], [1; 2]%Z)],      [([], [3; 4]%Z); ([], [5; 6]%Z)],         []) ].
+Proof. exact ex_iteration_three_indices. Qed.
+
+Print Assumptions par_indexed_run_least_model.
+Print Assumptions c02_par_indexed_run_refines_parstep.
+Print Assumptions c02_par_indexed_iteration_refines_parstep.
+Print Assumptions c02_par_indexed_lockstep.
+Print Assumptions c02_par_indexed_iteration_no_panic.
+Print Assumptions c02_par_indexed_iteration_example.
